@@ -101,10 +101,14 @@ def gen_generic(rng, d, nslots=3, nev=14, ops=None, cats=CATS, init=2):
             out.append({"op": op, "t": t, "a": a, "b": b})
             if t not in live:
                 live.append(t)
-            (mutable.add if a in mutable else mutable.discard)(t)
+            # a sum with a reloaded (immutable) operand may contain immutable parts (bins adopted from it):
+            # whether it can be filled is not specified by any property, so the driver does not fill it
+            (mutable.add if (a in mutable and b in mutable) else mutable.discard)(t)
         elif op == "IAdd":
             a, b = rng.choice(live), rng.choice(live)
             out.append({"op": "IAdd", "a": a, "b": b})
+            if b not in mutable:
+                mutable.discard(a)
         elif op == "Mul":
             a, t = rng.choice(live), rng.choice(slots)
             f = rng.choice(FACTORS)
